@@ -249,6 +249,10 @@ class PyRunner(object):
             docs = '!' + wire.err_name(e)
         return {'docs': docs, 'indexes': list(self.coll.index_information().keys())}
 
+    def raw_docs(self):
+        """the stored documents themselves (no copy, no expiry pass)"""
+        return list(self.coll._store._documents.values())
+
 
 def canon_out(out, oids):
     """token string of an outcome, comparable with the driver's"""
@@ -261,14 +265,17 @@ def canon_out(out, oids):
     return wire.encs(out, oids)
 
 
-def run_python(history, oids, server_version='5.0.5'):
-    """[(outcome tokens, observation tokens, extra)]"""
+def run_python(history, oids, server_version='5.0.5', probe=None):
+    """[(outcome tokens, observation tokens, extra, outcome, observation)]; `probe(runner, op)`
+    may add python-only measurements to `extra['probe']` after each step"""
     pr = PyRunner(server_version)
     res = []
     try:
         for op in history:
             out, extra = pr.apply(op)
             obs = pr.observe()
+            if probe is not None:
+                extra['probe'] = probe(pr, op)
             res.append((canon_out(out, oids), wire.encs(obs, oids), extra, out, obs))
     finally:
         pr.close()
